@@ -75,6 +75,8 @@ def wrap_at_entry(repo: Repo, rep):
         calls = [x for x in body_nodes(m.node) if isinstance(x, ast.Call)]
         leaf = [x for x in calls if isinstance(x.func, ast.Name) and x.func.id == fparam]
         rec = [x for x in calls if any(getattr(t, "key", "") == "_adapter/adapter.py::adapter_map" for t in cg.resolve_callee(x, m)) and len(x.args) >= 2 and isinstance(x.args[1], ast.Name) and x.args[1].id == fparam]
+        # the same recursion written out: <adapter of the element>.map(element, map_function)
+        rec += [x for x in calls if isinstance(x.func, ast.Attribute) and x.func.attr == "map" and len(x.args) >= 2 and isinstance(x.args[1], ast.Name) and x.args[1].id == fparam]
         if leaf or rec:
             rep.ok("R-WRAP-AT-ENTRY", m, m.node, f"{c.name}.map: " + ("applies the map function" if leaf else f"recurses through adapter_map ({len(rec)} site(s))"))
         else:
@@ -123,12 +125,13 @@ def wrap_at_entry(repo: Repo, rep):
         rep.ok("R-WRAP-AT-ENTRY", ua, ua.node, "update_allowed = not (dirty-equals or instance of an unmanaged type)")
     else:
         rep.violation("R-WRAP-AT-ENTRY", ua, ua.node, f"update_allowed is `{src[:70]}`: it no longer excludes dirty-equals values and the registered unmanaged types", construct="update_allowed")
-    iu = repo.func("_unmanaged.py::is_unmanaged")
-    src = " ".join(norm(s) for s in iu.node.body if isinstance(s, ast.Return))
-    if src.replace(" ", "").startswith("returnnotupdate_allowed("):
-        rep.ok("R-WRAP-AT-ENTRY", iu, iu.node, "is_unmanaged = not update_allowed")
-    else:
-        rep.violation("R-WRAP-AT-ENTRY", iu, iu.node, f"is_unmanaged is `{src[:60]}`, not the negation of update_allowed", construct="is_unmanaged")
+    iu = repo.find_func("_unmanaged.py", "is_unmanaged")
+    if iu is not None:
+        src = " ".join(norm(s) for s in iu.node.body if isinstance(s, ast.Return))
+        if src.replace(" ", "").startswith("returnnotupdate_allowed("):
+            rep.ok("R-WRAP-AT-ENTRY", iu, iu.node, "is_unmanaged = not update_allowed")
+        else:
+            rep.violation("R-WRAP-AT-ENTRY", iu, iu.node, f"is_unmanaged is `{src[:60]}`, not the negation of update_allowed", construct="is_unmanaged")
     um = repo.module("_unmanaged.py")
     lst = [s for s in um.globals_assigned.get("unmanaged_types", []) if isinstance(s, ast.Assign)]
     names = {x.id for s in lst for x in ast.walk(s.value) if isinstance(x, ast.Name)}
@@ -363,6 +366,40 @@ def star_freeze(repo: Repo, rep):
                 n += 1
                 kind = PAIR_ATTRS[attr]
                 tf, tcfg, tnode = f, cfg, nn[0]
+                if f.parent is None and f.cls is None and node_txt in f.params:
+                    # module-level helper taking the node as an argument (e.g. bound with functools.partial):
+                    # the star test has to dominate every place the helper is referenced with a node
+                    refs = []
+                    for g in repo.pkg_funcs():
+                        if g is f:
+                            continue
+                        for x in body_nodes(g.node):
+                            if isinstance(x, ast.Name) and x.id == f.name and isinstance(x.ctx, ast.Load):
+                                refs.append((g, x))
+                    if refs:
+                        all_ok = True
+                        for g, x in refs:
+                            gcfg = cfg_of(g)
+                            gn = gcfg.nodes_containing(x)
+                            # the actual node expression: first argument after the helper in partial(...) / the call
+                            call = parent(x)
+                            actual = None
+                            if isinstance(call, ast.Call):
+                                args = [a for a in call.args if a is not x]
+                                actual = norm(args[0]) if args else None
+                            if not gn or actual is None:
+                                all_ok = False
+                                continue
+                            gtests = [t for t in _star_tests(g, gcfg, actual) if t[1] == PAIR_ATTRS[attr]]
+                            kill = [y for y in gcfg.stmts(ast.Assign) if any(norm(t) == actual for t in y.ast.targets) and isinstance(y.ast.value, ast.Constant) and y.ast.value.value is None]
+                            nne = [(c, "F") for c in gcfg.conds() if norm(c.ast) == f"{actual} is not None"] + [(c, "T") for c in gcfg.conds() if norm(c.ast) == f"{actual} is None"]
+                            if not any(t[2] and gn[0] not in reach(gcfg, [gcfg.entry], blocked_nodes=[t[0]] + kill, blocked_edges=nne) for t in gtests):
+                                all_ok = False
+                        n += 1
+                        if all_ok:
+                            rep.ok("R-STAR-FREEZE", f, where, f"pairing helper over `{node_txt}.{attr}`: every reference is behind a {PAIR_ATTRS[attr]} test")
+                            continue
+                        n -= 1
                 if f.parent is not None and node_txt not in f.params:
                     # pairing inside a nested helper over the enclosing function's node:
                     # the star test must dominate the helper's definition
